@@ -36,7 +36,9 @@ def run(ctx):
                 timeout=tmo, twin="_lf_reach",
             )
         )
+    conds.append(xh.Cond("lint-file: the files named on the command line are the ones examined, from any working directory, however root and files are spelled", "C03.py", "_lintfile", {}, timeout=tmo, twin="_lintfile_reach"))
     ctx.functions_encoded = [
+        "reuse.cli.lint_file.lint_file path handling + reuse.covered_files.iter_files with subset_files, over a path algebra with a working directory (resolve() collapses '..', absolute() does not; no symlinks)",
         "reuse.lint.format_plain / format_json / format_lines / format_lines_subset",
         "reuse.report.ProjectReport.to_dict_lint, ProjectSubsetReport.generate / is_compliant / files_without_*",
         "reuse.cli.lint.lint and reuse.cli.lint_file.lint_file (command bodies: output selection, exit status)",
@@ -44,12 +46,15 @@ def run(ctx):
     ctx.bounds = {
         "project state": "2 covered files (names with a blank and a non-ASCII letter), per file expression in {none, MIT, Foo, MIT AND Foo, (MIT OR GPL-3.0)} x copyright x read error; LICENSES: MIT, GPL-3.0, Foo each in {absent, ID.txt" + (", ID" if tier != "quick" else "") + "}",
         "lint-file": "every subset F of the two covered files plus one non-covered file",
+        "lint-file spelling": "3 working directories (root, two sub-directories) x 2-3 spellings of the root from there x 4 spellings of an existing file (relative, './', '..', absolute)",
     }
     ctx.stubs = ["as C01/C06 (reuse_info_of, listing, echo captured)", "the parsers of the three text formats run natively"]
-    ctx.outside = ["relative/absolute spelling of F and the working directory (pathlib on the real OS)", "json.dumps itself (CrossHair substitutes a pure-Python encoder; values are concrete)", "more than 2 items per category"]
+    ctx.outside = ["symbolic links in the spelling of F or of the root; the real OS's pathlib (the spelling obligation runs on a path algebra)", "json.dumps itself (CrossHair substitutes a pure-Python encoder; values are concrete)", "more than 2 items per category"]
     ctx.assumptions = ["after the solver has fixed a project state every value is concrete: the solver's part is exhaustive exploration of the state space"]
 
     def confirm(c, ex):
+        if c.func == "_lintfile":
+            return f"lint-file-spelling:{ex['cwd']}:{ex['root']}:{ex['named']}", f"lint-file {ex['named']!r} from {ex['cwd']} with root {ex['root']!r}: {ex['outcome']}, examined {ex['examined']}, expected {ex['expected']}", {"harness": "C03.py::_lintfile", "explain": ex}
         story = ex.get("story")
         if not story:
             return None
